@@ -10,7 +10,7 @@ import (
 )
 
 func init() {
-	Explanations["C09"] = "Decides structural necessary conditions of 'the host's sector roots always match the committed contract, even on aborts' in the rhp.Server handlers: (R1) no element store, copy or in-place reordering ever reaches the slice handed out by the contract lock (RevisionState.Roots) or an alias of it — only a clone may be edited — so an aborted RPC cannot have changed the contractor's roots; (R2) the Merkle root committed into the revision and the roots persisted with it derive from the same slice variable (MetaRoot(X)/BuildAppendProof(old, X[len(old):]) for the X handed to ReviseV2Contract; the unchanged locked roots for the roots-listing RPC); (R3) request-derived indices and ranges subscript the roots only after the request was validated against the locked revision or bounds-checked against len(roots); (R4) the renter-side free call sends Compact(SortFunc(Clone(indices), descending)) and never writes the caller's slice. That nothing is persisted before the renter's signature verifies is decided by C08.R4. (R5) every repository implementation of Contractor.RenewV2Contract (the reference contractor) stores, under the renewed contract's id, roots read from its roots table under a different id (the contract being renewed): the renewed contract, which commits to the old file size and Merkle root, keeps its sectors. NOT decided: equality with the swap-remove list model for arbitrary index lists, readability of listed sectors, balances."
+	Explanations["C09"] = "Decides structural necessary conditions of 'the host's sector roots always match the committed contract, even on aborts' in the rhp.Server handlers: (R1) no element store, copy or in-place reordering ever reaches the slice handed out by the contract lock (RevisionState.Roots) or an alias of it — only a clone may be edited — so an aborted RPC cannot have changed the contractor's roots; (R2) the Merkle root committed into the revision and the roots persisted with it derive from the same slice variable (MetaRoot(X)/BuildAppendProof(old, X[len(old):]) for the X handed to ReviseV2Contract; the unchanged locked roots for the roots-listing RPC); (R3) request-derived indices and ranges subscript the roots only after the request was validated against the locked revision or bounds-checked against len(roots); (R4) the renter-side free call sends Compact(SortFunc(Clone(indices), descending)) and never writes the caller's slice. That nothing is persisted before the renter's signature verifies is decided by C08.R4. (R5) every repository implementation of Contractor.RenewV2Contract (the reference contractor) stores, under the renewed contract's id, roots read from its roots table under a different id (the contract being renewed): the renewed contract, which commits to the old file size and Merkle root, keeps its sectors. (R6) no call that takes the handler's stream (other than writes) is reachable from the success edge of DebitAccount. NOT decided: equality with the swap-remove list model for arbitrary index lists, readability of listed sectors, balances."
 
 	register(&Rule{ID: "C09.R1", Prop: "C09", Floor: 3, Doc: "the roots handed out by the contract lock are never written in place", Run: c09r1})
 	register(&Rule{ID: "C09.R2", Prop: "C09", Floor: 3, Doc: "committed Merkle root and persisted roots derive from the same slice", Run: c09r2})
